@@ -351,6 +351,11 @@ def run (β : Beh) : Nat → M → M
 
 def M.finished (m : M) : Bool := m.pend.isNone && m.stack.isEmpty && m.todo.isEmpty
 
+/-- `run` that stops stepping once nothing is left to do (what the driver executes; `Proofs.drive_eq_run`) -/
+def drive (β : Beh) : Nat → M → M
+  | 0, m => m
+  | n + 1, m => if m.finished then m else drive β n (step β m)
+
 /-- handlers invoked for delivery `f`, in order -/
 def callsOf (f : Nat) : List Ev → List Entry
   | [] => []
